@@ -274,22 +274,49 @@ def with_timeout(fn, arg, secs=5.0):
         signal.signal(signal.SIGALRM, old)
 
 
-def _pool_init():
+_timeouts_in_a_row = 0
+GIVE_UP_AFTER = 40          # consecutive per-case timeouts in one worker: the code under test hangs / blows up wholesale
+
+
+def _pool_init(limit_memory=True):
     import logging
     logging.disable(logging.CRITICAL)
     sys.setrecursionlimit(10000)
+    if not limit_memory:
+        return
+    try:                    # a code change that makes shared state grow without bound must not exhaust the machine
+        import resource
+        resource.setrlimit(resource.RLIMIT_AS, (8 << 30, 8 << 30))
+    except Exception:
+        pass
 
 
 def _pool_call(a):
+    global _timeouts_in_a_row
     fn, arg, secs = a
+    if _timeouts_in_a_row >= GIVE_UP_AFTER:
+        return ('TIMEOUT', 'worker gave up after %d consecutive timeouts' % GIVE_UP_AFTER)
     try:
-        return with_timeout(fn, arg, secs)
+        r = with_timeout(fn, arg, secs)
+        _timeouts_in_a_row = 0
+        return r
     except CaseTimeout:
+        _timeouts_in_a_row += 1
         return ('TIMEOUT',)
+    except MemoryError:
+        _timeouts_in_a_row += 1
+        return ('TIMEOUT', 'MemoryError (address-space limit of the worker)')
     except RecursionError:
         return ('RECURSION',)
     except Exception as e:  # harness-level failure, reported as such
         return ('HARNESS-EXC', type(e).__name__, str(e)[:300], traceback.format_exc()[-1500:])
+
+
+STREAM_BUDGET = 1500.0      # seconds per stream; check.py lowers it for the quick tier
+
+
+def _pool_chunk(chunk):
+    return [_pool_call(a) for a in chunk]
 
 
 def pmap(fn, args, secs=5.0, procs=None):
@@ -299,10 +326,27 @@ def pmap(fn, args, secs=5.0, procs=None):
         return []
     procs = procs or NPROC
     if len(args) < 64 or procs == 1:
-        _pool_init()
+        _pool_init(limit_memory=False)
         return [_pool_call((fn, a, secs)) for a in args]
+    # wall-clock budget for one stream: a code change that makes every case slow (but not hang) must not keep the
+    # check running for hours; what is not evaluated in time is reported as TIMEOUT (a harness-level failure)
+    budget = float(os.environ.get('VERIF_STREAM_BUDGET') or STREAM_BUDGET)
+    items = [(fn, a, secs) for a in args]
+    cs = max(1, len(items) // (procs * 16))
+    chunks = [items[i:i + cs] for i in range(0, len(items), cs)]
+    out = []
+    t0 = time.time()
     with multiprocessing.get_context('fork').Pool(procs, initializer=_pool_init) as pool:
-        return pool.map(_pool_call, [(fn, a, secs) for a in args], chunksize=max(1, len(args) // (procs * 8)))
+        it = pool.imap(_pool_chunk, chunks, chunksize=1)
+        for _ in chunks:
+            left = budget - (time.time() - t0)
+            try:
+                out += it.next(timeout=max(1.0, left))
+            except multiprocessing.TimeoutError:
+                pool.terminate()
+                out += [('TIMEOUT', 'stream budget of %d s exhausted' % int(budget))] * (len(items) - len(out))
+                break
+    return out
 
 
 # ----------------------------------------------------------------------------
